@@ -293,26 +293,48 @@ def rule_visit3(prog, rep, tier, anchor="ast_utils.find_in_ast", location_induct
             rep.holds("VISIT-3", "answer#%d %s only when matched" % (k, src(n.stmt, 50)), loc(prog, n.stmt), "")
     if len(consumes) + len(answers) < 2:
         raise AnalysisError("VISIT-3: resolver events not recognised in %s (%d consumes, %d answers)" % (anchor, len(consumes), len(answers)))
-    # VISIT-3b: answers decided by `_location == search` alone are only as good as the annotation (VISIT-4)
+    # VISIT-3b: an answer decided by `_location == search` alone is sound with the (non-inductive) annotation only when the
+    # candidates are the children of the last matched node (the cursor); a lookup over all descendants (ast.walk) or any
+    # other candidate set can hit a node at another depth that carries the same two-element location.
     if location_inductive is not None:
+        inductive = location_inductive(prog)
+        cursor_vars = {"cursor"} | {t.id for st in ast.walk(fi.node) if isinstance(st, ast.Assign) for t in st.targets
+                                     if isinstance(t, ast.Name) and isinstance(st.value, ast.Attribute) and st.value.attr == "body"}
+        for st in ast.walk(fi.node):
+            if isinstance(st, ast.Assign) and isinstance(st.targets[0], ast.Tuple) and isinstance(st.value, ast.Tuple):
+                for t, v in zip(st.targets[0].elts, st.value.elts):
+                    if isinstance(t, ast.Name) and isinstance(v, ast.Attribute) and v.attr == "body":
+                        cursor_vars.add(t.id)
         k = 0
         for n in answers:
             gs = [f for t, p in expr_guards(n.stmt, stop=fi.node) for f in facts(t, p)]
-            if any(_is_loc_eq(a) == "exact" and p for a, p in gs):
-                k += 1
-                if location_inductive(prog):
-                    rep.holds("VISIT-3b", "answer by exact _location #%d" % k, loc(prog, n.stmt), "the annotation is inductive")
-                else:
-                    rep.violation(Finding("VISIT-3b", anchor, "answer-by-location#%d" % k,
-                                          "the answer %s is decided by `_location == search` alone, but the annotation is not built inductively from the parent "
-                                          "location (VISIT-4), so two nodes at different depths can carry the same _location" % src(n.stmt, 50), loc(prog, n.stmt)))
-        # a walk-based lookup (any iteration over ast.walk(...) returning on _location) is the same idiom
+            if not any(_is_loc_eq(a) == "exact" and p for a, p in gs):
+                continue
+            k += 1
+            loop = None
+            p = n.stmt._parent
+            while p is not None and p is not fi.node:
+                if isinstance(p, (ast.For, ast.comprehension)):
+                    loop = p
+                    break
+                p = p._parent
+            over_cursor = loop is not None and isinstance(loop.iter, ast.Name) and loop.iter.id in cursor_vars
+            if inductive or over_cursor:
+                rep.holds("VISIT-3b", "answer by exact _location #%d" % k, loc(prog, n.stmt),
+                          "the annotation is inductive" if inductive else "candidates are the children of the last matched node")
+            else:
+                rep.violation(Finding("VISIT-3b", anchor, "answer-by-location:%s" % (src(loop.iter, 40) if loop is not None else "no-loop"),
+                                      "the answer %s is decided by `_location == search` alone over candidates %s, but the annotation is not built inductively from the "
+                                      "parent location (VISIT-4): nodes at other depths carry the same two-element _location"
+                                      % (src(n.stmt, 50), src(loop.iter, 40) if loop is not None else "(no loop)"), loc(prog, n.stmt)))
         for c in ast.walk(fi.node):
-            if isinstance(c, ast.Call) and prog.ext_name(c.func, c) in ("ast.walk",):
+            if isinstance(c, ast.Call) and isinstance(c.func, (ast.Name, ast.Attribute)) and prog.ext_name(c.func, c) == "ast.walk":
                 k += 1
-                if not location_inductive(prog):
-                    rep.violation(Finding("VISIT-3b", anchor, "walk-by-location#%d" % k,
-                                          "lookup over ast.walk(...) by _location while the annotation is not inductive", loc(prog, c)))
+                if inductive:
+                    rep.holds("VISIT-3b", "lookup over ast.walk", loc(prog, c), "the annotation is inductive")
+                elif any(isinstance(x, ast.Attribute) and x.attr == "_location" for x in ast.walk(fi.node)):
+                    rep.violation(Finding("VISIT-3b", anchor, "walk-by-location",
+                                          "find_in_ast looks nodes up over ast.walk(...) (all descendants) by _location while the annotation is not inductive", loc(prog, c)))
 
 
 def _header_roots(stmt):
